@@ -62,6 +62,11 @@ CLAIMED = {
             "dict / pair list / set_time), executed in lock-step with a reference record: normal-form invariant after "
             "every call, refusal iff a different value is offered for a filled formal attribute, refusals change "
             "nothing; plus 1320 literal-vs-native cases over every attribute class and entry path.", TECH, NOTE),
+    "C02": ("Same enumerations as C01 (history exploration of the 57-letter alphabet; cartesian shape sweep over 12 "
+            "namespace environments x 55 record shapes x id modes x all value kinds x prov:type/label/value/location/"
+            "role and user attributes) restricted by the quantifier's expressibility clauses X1-X4 (each counted), "
+            "written as PROV-XML with force_types False and True, read back and compared strictly.",
+            TECH + "; exhaustive shape sweeps", NOTE),
 }
 
 NA = {}
